@@ -30,8 +30,9 @@ type ctl struct {
 	nstore int            // number of stores logged in this case
 
 	// fault injection: the next AcquirePage on the data factory fails (one-shot)
-	failDataAcquire bool
-	failFired       bool
+	failDataAcquire  bool
+	failIndexAcquire bool
+	failFired        bool
 
 	// GC parking: called at indexPageFct.GetPage ("getpage"), dataPageFct.TruncatePages
 	// ("truncdata") and indexPageFct.TruncatePages ("truncindex")
@@ -155,6 +156,11 @@ var errInjected = errors.New("injected: no space left on device")
 func (f *wfactory) AcquirePage(i int64) (page.MappedPage, error) {
 	if f.kind == "data" && f.c.failDataAcquire {
 		f.c.failDataAcquire = false
+		f.c.failFired = true
+		return nil, errInjected
+	}
+	if f.kind == "index" && f.c.failIndexAcquire {
+		f.c.failIndexAcquire = false
 		f.c.failFired = true
 		return nil, errInjected
 	}
